@@ -44,6 +44,14 @@ def contentEndsLine (content : Bytes) : Bool :=
 
 def endsLine (frag : Bytes) : Bool := contentEndsLine (inner frag)
 
+/-- what the end-of-line test is about, on a small model of JSON string escaping: a backslash
+    is written `\\`, a newline `\n`, every other byte as itself (the escapes of the other
+    bytes — `\"`, `\t`, `\u00XX` — neither end in a backslash nor in an `n`) -/
+def escByte (b : UInt8) : Bytes :=
+  if b = BSLASH then [BSLASH, BSLASH] else if b = NL then [BSLASH, LOWER_N] else [b]
+
+def esc (text : Bytes) : Bytes := text.flatMap escByte
+
 /-- the unfinished line -/
 structure Line where
   inners : List Bytes     -- contents of its chunks so far, in order
